@@ -402,6 +402,7 @@ func genC07(g *gen) {
 	g.kernelMatrix(arithOps, false, []string{"safe", "unsafe", "reuse", "incr"})
 	g.kernelMatrix(cmpOps, true, []string{"safe", "same", "unsafe", "reuse-bool", "reuse-same"})
 	g.scalarTensorMatrix([]string{"sub", "mul", "maxb"}, []string{"f64", "i32", "c64", "u8", "i64"}, []string{"safe", "unsafe", "reuse", "incr", "reuse=scalar"})
+	g.orderMismatchMatrix()
 	g.scalarTensorMatrix([]string{"lt", "gte"}, []string{"f64", "i32", "u8", "i64"}, []string{"same", "unsafe", "reuse-same"})
 	for _, op := range []string{"minb", "maxb"} {
 		for _, mode := range []string{"safe", "unsafe", "reuse", "reuse=a", "reuse=b"} {
